@@ -331,3 +331,4 @@ theorem lookup_lengths_ok :
   decide +kernel
 
 end MidnightZK.C07
+
